@@ -45,6 +45,7 @@ pub fn new_box(area: &str) -> Option<Box<dyn VerifBox>> {
         "c07" => Some(Box::new(c07::C07Box::new())),
         "c13" => Some(Box::new(crate::protocol::request_response::verif_c13::RrBox::new())),
         "c02" => Some(Box::new(crate::crypto::noise::verif_c02::NoiseBox::new())),
+        "c01" => Some(Box::new(crate::crypto::noise::verif_c01::IdentityBox::new())),
         "c16" => Some(Box::new(crate::protocol::libp2p::kademlia::verif_c16::KadBox::new())),
         "c20" => Some(Box::new(crate::protocol::libp2p::bitswap::verif_c20::BitswapBox::new())),
         "c17" => Some(Box::new(
@@ -67,6 +68,7 @@ pub fn new_box(area: &str) -> Option<Box<dyn VerifBox>> {
 /// Names of all adapters.
 pub fn areas() -> Vec<&'static str> {
     vec![
+        "c01",
         "c02",
         "c03",
         "c04",
@@ -215,4 +217,26 @@ pub fn logical_now() -> Option<std::time::Instant> {
 /// `t.elapsed()` on the logical clock.
 pub fn logical_elapsed(t: std::time::Instant) -> Option<std::time::Duration> {
     logical_now().map(|now| now.saturating_duration_since(t))
+}
+
+thread_local! {
+    /// C01: (Noise static public key, ed25519 identity public key that signs it), recorded by
+    /// `NoiseContext::assemble` at the moment the identity payload is produced.
+    static C01_STATICS: std::cell::RefCell<Vec<(Vec<u8>, [u8; 32])>> =
+        const { std::cell::RefCell::new(Vec::new()) };
+}
+
+/// Record that identity key `id` is about to sign the Noise static key `st` (C01 ground truth).
+pub fn c01_note_static(st: &[u8], id: &[u8; 32]) {
+    C01_STATICS.with(|m| m.borrow_mut().push((st.to_vec(), *id)));
+}
+
+/// Forget the recorded static keys of this thread.
+pub fn c01_clear_statics() {
+    C01_STATICS.with(|m| m.borrow_mut().clear());
+}
+
+/// The identity key that signed the static key `st` on this thread, if any.
+pub fn c01_static_signer(st: &[u8]) -> Option<[u8; 32]> {
+    C01_STATICS.with(|m| m.borrow().iter().find(|(s, _)| s == st).map(|(_, id)| *id))
 }
